@@ -2,6 +2,7 @@
 C10 — the slicing optimisation never changes a mask (M7 `Model/Slicer.lean`).
 -/
 import LlgVerif.Proofs.Slicer
+import LlgVerif.Proofs.Contain
 namespace LlgVerif
 open Slice
 
@@ -30,6 +31,17 @@ theorem apply_covers (mtch allowed : Nat → Bool) (s : Slice) (acc : List Nat)
     t ∈ (apply mtch allowed s acc).2 ↔
       t ∈ acc ∨ ((apply mtch allowed s acc).1 = true ∧ t ∈ s.mask ∧ allowed t = true) :=
   apply_spec mtch allowed s acc hwf hs t
+
+/-- **containment decided on certificates** — what the slicer asks of the lexer (`check_subsume`,
+derivre's `is_contained_in_prefixes`): a pair set accepted by `Dfa.containCheck` for the checked
+certificates of the slice regex and of a lexeme, started at the lexeme's state after the bytes `u`,
+proves that every string of the slice regex continues `u` to a prefix of a match of the lexeme.  On
+every run each "contained" answer of the implementation is re-decided this way (`lx contain`). -/
+theorem c10_containment_decided (rs rb : Rx) (ds db : Dfa) (hs : Dfa.check rs ds = true)
+    (hb : Dfa.check rb db = true) (u : List B) (pairs : List (Nat × Nat))
+    (h : Dfa.containCheck ds db (Dfa.run db 0 u) pairs = true) (w : List B) (hw : Rx.lang rs w) :
+    ∃ v, Rx.lang rb (u ++ w ++ v) :=
+  Dfa.contain_sound rs rb ds db hs hb u pairs h w hw
 
 /-- Non-vacuity: two overlapping child slices under a wildcard top slice; child 0 matched and
 sound, child 1 not matched: the hypotheses hold and token 5 (in no child) is reported, 3 is not. -/
